@@ -14,6 +14,7 @@ import YtkProofs.Heap
 import YtkProofs.Decisions
 import YtkProofs.Decisions2
 import YtkProofs.Fluent
+import YtkProofs.FuncsDomMerge
 
 namespace Ytk.C04
 
@@ -677,4 +678,76 @@ theorem nonvacuous_fluent :
       subst hx; exact .sc _)
 
 end fluent
+end Ytk.C04
+
+/-! ## xlate7c: dom/merge.go REGENERATED from the source (YtkModel/Generated/FuncsDom.lean) equals the model
+
+  `extract/translate_dom.go` translates `hasValue`, `coalesce`, `firstValidListItem`, `mergeListsAppend`,
+  `(*merger).mergeContainers` and `(*merger).mergeListsMeld` from /repo's working tree on every run, over the
+  trusted DOM primitives of YtkModel/DomPrelude.lean.  The theorems below say, for ALL inputs, that the
+  translation returns (`Go.Res.ok`: no panic, recursion / loop fuel not exhausted) exactly what the
+  hand-written model of YtkModel/Merge.lean returns — on well-formed documents where the model's map
+  representation needs it.  An edit of one of these Go functions changes the generated definition and the
+  theorem of that function stops checking.  Proofs: YtkProofs/FuncsDomMerge.lean. -/
+namespace Ytk.C04
+open Ytk.Generated
+
+/-- hasValue(n) for a non-nil node; `hasValue(nil) = false` -/
+theorem hasValue_generated_eq_model (n : Node) :
+    FuncsDom.hasValue (some n) = .ok (hasValue n) ∧ FuncsDom.hasValue none = .ok false :=
+  ⟨FuncsDomMerge.hasValue_generated_eq_model n, FuncsDomMerge.hasValue_generated_nil⟩
+
+/-- coalesce(nodes...) — any number of arguments, in the order of the call -/
+theorem coalesce_generated_eq_model (nodes : List Node) : FuncsDom.coalesce nodes = .ok (coalesceList nodes) :=
+  FuncsDomMerge.coalesce_generated_eq_model nodes
+
+/-- firstValidListItem(idx, lists...) for a non-negative index -/
+theorem firstValidListItem_generated_eq_model (i : Nat) (lists : List (List Node)) :
+    FuncsDom.firstValidListItem (i : Int) lists = .ok (firstValidListItem i lists) :=
+  FuncsDomMerge.firstValidListItem_generated_eq_model i lists
+
+theorem mergeListsAppend_generated_eq_model (l1 l2 : List Node) :
+    FuncsDom.mergeListsAppend l1 l2 = .ok (appendList l1 l2) :=
+  FuncsDomMerge.mergeListsAppend_generated_eq_model l1 l2
+
+/-- merger.mergeContainers with the field `mg.listMergeFn` as the parameter `f`: for every `f` that behaves as
+    the model's list strategy `o` on the (well-formed) lists inside `c2` -/
+theorem mergeContainers_generated_eq_model (o : ListStrategy) (f : List Node → List Node → Go.Res (List Node))
+    (c1 c2 : AMap Node)
+    (hf : ∀ a b, (Node.list a).WF → (Node.list b).WF → Node.sizeList b < Node.sizeKvs c2 → f a b = .ok (mergeList o a b))
+    (h1 : (Node.cont c1).WF) (h2 : (Node.cont c2).WF) :
+    FuncsDom.mergeContainers f c1 c2 = .ok (mergeKvs o c1 c2) :=
+  FuncsDomMerge.mergeContainers_generated_eq_model o f c1 c2 hf h1 h2
+
+/-- merger.mergeListsMeld, likewise -/
+theorem mergeListsMeld_generated_eq_model (o : ListStrategy) (f : List Node → List Node → Go.Res (List Node))
+    (l1 l2 : List Node)
+    (hf : ∀ a b, (Node.list a).WF → (Node.list b).WF → Node.sizeList b < Node.sizeList l2 → f a b = .ok (mergeList o a b))
+    (h1 : (Node.list l1).WF) (h2 : (Node.list l2).WF) :
+    FuncsDom.mergeListsMeld f l1 l2 = .ok (meldList o l1 l2) :=
+  FuncsDomMerge.mergeListsMeld_generated_eq_model o f l1 l2 hf h1 h2
+
+/-- `Merge(other, ListsMergeAppend())`: the field is the translated `mergeListsAppend` -/
+theorem merge_append_generated_eq_model (c1 c2 : AMap Node) (h1 : (Node.cont c1).WF) (h2 : (Node.cont c2).WF) :
+    FuncsDom.mergeContainers FuncsDom.mergeListsAppend c1 c2 = .ok (mergeC .append c1 c2) :=
+  FuncsDomMerge.mergeContainers_generated_eq_model .append _ c1 c2 (FuncsDomMerge.listFnOk_append _) h1 h2
+
+/-- `Merge(other)` with the default option: the field is the translated `mergeListsMeld` of the same merger
+    (`meldKnot`: that self-reference, unrolled as often as `c2` is deep) -/
+theorem merge_meld_generated_eq_model (c1 c2 : AMap Node) (h1 : (Node.cont c1).WF) (h2 : (Node.cont c2).WF) :
+    FuncsDom.mergeContainers (FuncsDomMerge.meldKnot (Node.sizeKvs c2)) c1 c2 = .ok (mergeC .meld c1 c2) :=
+  FuncsDomMerge.mergeContainers_generated_eq_model .meld _ c1 c2 (FuncsDomMerge.listFnOk_meld _) h1 h2
+
+/-- the translated code, RUN on a document with nested containers, lists of different lengths, a null that
+    does not overwrite and a kind conflict -/
+theorem nonvacuous_merge_generated :
+    FuncsDom.mergeContainers (FuncsDomMerge.meldKnot 20)
+        [("a", .cont [("x", i 1)]), ("l", .list [i 1, .cont [("p", i 1)]]), ("n", i 5), ("z", i 0)]
+        [("a", .cont [("y", i 2)]), ("l", .list [Node.null, .cont [("q", i 2)], i 3]), ("n", Node.null), ("z", .list [])]
+      = .ok [("a", .cont [("x", i 1), ("y", i 2)]), ("l", .list [i 1, .cont [("p", i 1), ("q", i 2)], i 3]),
+             ("n", i 5), ("z", .list [])] ∧
+    FuncsDom.mergeContainers FuncsDom.mergeListsAppend [("l", .list [i 1])] [("l", .list [i 2])]
+      = .ok [("l", .list [i 1, i 2])] := by
+  decide
+
 end Ytk.C04
